@@ -164,7 +164,7 @@ func Handler6(req, resp dhcpv6.DHCPv6) (dhcpv6.DHCPv6, bool) {
 	recLock.RLock()
 	defer recLock.RUnlock()
 
-	ipaddr, ok := StaticRecords[mac.String()]
+	ipaddr, ok := recordsFor(true)[mac.String()]
 	if !ok {
 		log.Warningf("MAC address %s is unknown", mac.String())
 		return resp, false
@@ -189,7 +189,7 @@ func Handler4(req, resp *dhcpv4.DHCPv4) (*dhcpv4.DHCPv4, bool) {
 	recLock.RLock()
 	defer recLock.RUnlock()
 
-	ipaddr, ok := StaticRecords[req.ClientHWAddr.String()]
+	ipaddr, ok := recordsFor(false)[req.ClientHWAddr.String()]
 	if !ok {
 		log.Warningf("MAC address %s is unknown", req.ClientHWAddr.String())
 		return resp, false
@@ -276,7 +276,27 @@ func loadFromFile(v6 bool, filename string) error {
 	recLock.Lock()
 	defer recLock.Unlock()
 
+	// Each protocol serves from its own file: when both server4 and server6
+	// use this plugin, one table must not replace the other.
+	if v6 {
+		DHCPv6Records = records
+	} else {
+		DHCPv4Records = records
+	}
 	StaticRecords = records
 
 	return nil
+}
+
+// recordsFor returns the table of the given protocol. StaticRecords (the table
+// loaded last) is only used when nothing was loaded for that protocol, i.e.
+// when it was assigned directly. Must be called with recLock held.
+func recordsFor(v6 bool) map[string]net.IP {
+	if v6 && DHCPv6Records != nil {
+		return DHCPv6Records
+	}
+	if !v6 && DHCPv4Records != nil {
+		return DHCPv4Records
+	}
+	return StaticRecords
 }
